@@ -53,4 +53,47 @@ def checkAttrListL (specs : List (String × Bool)) (seen : List ((String × Bool
          else [⟨.unknownAttr a.name, i, .name, none⟩])
         ++ checkAttrListL specs ((key, i) :: seen) (i + 1) rest
 
+/-! ## `_verify_field_attributes` (byte order, `[requires]` placement): where the errors point
+
+  * "byte_order required"            → `field.source_location` (the whole field)
+  * "byte_order not allowed" / "may only be 'Null'" → the value of the field's byte_order
+    attribute: its own one, or — for `Null` — the `$default byte_order` in effect, which
+    `_add_missing_byte_order_attribute_on_field` copied from an enclosing scope *with its location*
+  * `[requires]` on an array / non-scalar → the value of the field's own `[requires]` -/
+
+/-- Where an error of `_verify_field_attributes` is reported. -/
+inductive FieldAt where
+  | field                 -- `field.source_location`
+  | attrValue (i : Nat)   -- `.value.source_location` of the field's own `i`-th attribute
+  | inherited             -- the value of the `$default` in effect (an attribute of an enclosing scope)
+  deriving DecidableEq, Repr
+
+/-- index of the attribute `ir_util.get_attribute` returns -/
+def attrIdxFrom (n : String) (i : Nat) : List Attr → Option Nat
+  | [] => none
+  | a :: rest => if a.named n then some i else attrIdxFrom n (i + 1) rest
+
+def ownAt (f : Field) (n : String) : FieldAt :=
+  match attrIdxFrom n 0 f.attrs with
+  | some i => .attrValue i
+  | none => .inherited
+
+def fieldErrAt (f : Field) : EK → FieldAt
+  | .boRequired => .field
+  | .boNotAllowed => ownAt f "byte_order"
+  | .boNull => ownAt f "byte_order"
+  | .requiresArray => ownAt f "requires"
+  | .requiresType => ownAt f "requires"
+  | _ => .field
+
+/-- `_verify_field_attributes` with locations. -/
+def verifyFieldL (p : Program) (d : Option AVal) (t : TypeInfo) (f : Field) : List (EK × FieldAt) :=
+  (verifyByteOrder p d t f ++ verifyRequires p f).map (fun k => (k, fieldErrAt f k))
+
+/-- All located errors of the `Field` traversal of `_verify_attributes_on_ir`:
+(type id, field name, kind, where), in the order of `allTypes`. -/
+def verifyFieldsL (p : Program) : List (Nat × String × EK × FieldAt) :=
+  (allTypes p).flatMap (fun c =>
+    c.2.fields.flatMap (fun f => (verifyFieldL p c.1 c.2 f).map (fun e => (c.2.id, f.name, e.1, e.2))))
+
 end Emboss.Constraints
